@@ -1,6 +1,6 @@
 (* C16 — proofs. *)
 From Coq Require Import NArith ZArith List Bool Lia ZifyN ZifyBool.
-From Dolt Require Import Base.Str Gen.C15Consts C15.Model C15.Proofs C16.Model.
+From Dolt Require Import Base.Str Gen.C15Consts C15.Model C15.Spec C15.Proofs C16.Model C16.Spec C16.Corr.
 Import ListNotations.
 Local Open Scope N_scope.
 Ltac Zify.zify_post_hook ::= Z.div_mod_to_equations.
@@ -164,4 +164,428 @@ Proof.
   split.
   - intros E. apply (f_equal (@length N)) in E. rewrite !repeat_length in E. discriminate E.
   - vm_compute. reflexivity.
+Qed.
+
+
+(* ================================================================== *)
+(* 5. aligned chunk lists: the first differing pair of leaves decides    *)
+Lemma bytes_compare_app_same p x y : bytes_compare (p ++ x) (p ++ y) = bytes_compare x y.
+Proof. induction p as [|c p IH]; [reflexivity|]. cbn [app bytes_compare]. rewrite N.compare_refl. exact IH. Qed.
+
+Lemma bytes_compare_app_diff a1 : forall b1 x y,
+  length a1 = length b1 -> a1 <> b1 -> bytes_compare (a1 ++ x) (b1 ++ y) = bytes_compare a1 b1.
+Proof.
+  induction a1 as [|c a1 IH]; intros [|d b1] x y L D; try discriminate L; [congruence|].
+  cbn [app bytes_compare]. destruct (c ?= d) eqn:C; try reflexivity.
+  apply N.compare_eq in C. subst d. apply IH; [cbn in L; lia | congruence].
+Qed.
+
+Lemma bytes_compare_short a : forall p q,
+  (length a < length p)%nat -> bytes_compare a (p ++ q) = bytes_compare a p.
+Proof.
+  induction a as [|c a IH]; intros [|d p] q L; cbn [length] in L; try lia; [reflexivity|].
+  cbn [app bytes_compare]. destruct (c ?= d); try reflexivity. apply IH. lia.
+Qed.
+
+Lemma bytes_compare_short_l a p q :
+  (length a < length p)%nat -> bytes_compare (p ++ q) a = bytes_compare p a.
+Proof.
+  intros L. rewrite (bytes_compare_antisym a (p ++ q)), (bytes_compare_antisym a p), bytes_compare_short by exact L. reflexivity.
+Qed.
+
+Lemma beq_bytes_false x y : beq_bytes x y = false -> x <> y.
+Proof. intros H E. subst. rewrite beq_bytes_refl in H. discriminate H. Qed.
+
+Lemma first_diff_chunk_fuel (K : nat) : (0 < K)%nat -> forall n a b,
+  (length a <= n)%nat -> (length b <= n)%nat ->
+  first_diff (chunk_fuel n K a) (chunk_fuel n K b) = bytes_compare a b.
+Proof.
+  intros HK. induction n as [|n IH]; intros a b La Lb.
+  - destruct a; [|cbn in La; lia]. destruct b; [reflexivity | cbn in Lb; lia].
+  - cbn [chunk_fuel]. destruct K as [|K']; [lia|].
+    destruct a as [|x a], b as [|y b]; try reflexivity.
+    set (A := x :: a) in *. set (B := y :: b) in *.
+    cbn [first_diff].
+    pose proof (firstn_skipn (S K') A) as SA. pose proof (firstn_skipn (S K') B) as SB.
+    assert (LA : (length (skipn (S K') A) <= n)%nat) by (rewrite skipn_length; subst A; cbn [length] in *; lia).
+    assert (LB : (length (skipn (S K') B) <= n)%nat) by (rewrite skipn_length; subst B; cbn [length] in *; lia).
+    destruct (beq_bytes (firstn (S K') A) (firstn (S K') B)) eqn:E.
+    + apply beq_bytes_spec in E. rewrite IH by assumption.
+      rewrite <- SA, <- SB at 2. rewrite E. symmetry. apply bytes_compare_app_same.
+    + apply beq_bytes_false in E.
+      rewrite <- SA, <- SB at 2.
+      pose proof (firstn_length (S K') A) as FA. pose proof (firstn_length (S K') B) as FB.
+      destruct (Nat.lt_trichotomy (length (firstn (S K') A)) (length (firstn (S K') B))) as [L | [L | L]].
+      * assert (SK : skipn (S K') A = []) by (apply skipn_all2; lia).
+        rewrite SK, app_nil_r. symmetry. apply bytes_compare_short. exact L.
+      * symmetry. apply bytes_compare_app_diff; assumption.
+      * assert (SK : skipn (S K') B = []) by (apply skipn_all2; lia).
+        rewrite SK, app_nil_r. symmetry. apply bytes_compare_short_l. exact L.
+Qed.
+
+Lemma chunk_fuel_enough (K : nat) : (0 < K)%nat -> forall f1 f2 b,
+  (length b <= f1)%nat -> (length b <= f2)%nat -> chunk_fuel f1 K b = chunk_fuel f2 K b.
+Proof.
+  intros HK. induction f1 as [|f1 IH]; intros f2 b L1 L2.
+  - destruct b; [|cbn in L1; lia]. destruct f2; reflexivity.
+  - destruct f2 as [|f2]; [destruct b; [reflexivity | cbn in L2; lia]|].
+    cbn [chunk_fuel]. destruct b as [|x b]; [reflexivity|]. f_equal.
+    apply IH; rewrite skipn_length; cbn [length] in *; lia.
+Qed.
+
+Theorem first_diff_chunks (K : nat) (a b : bytes) :
+  (0 < K)%nat -> first_diff (chunks K a) (chunks K b) = bytes_compare a b.
+Proof.
+  intros HK. unfold chunks.
+  rewrite (chunk_fuel_enough K HK (length a) (Nat.max (length a) (length b)) a) by lia.
+  rewrite (chunk_fuel_enough K HK (length b) (Nat.max (length a) (length b)) b) by lia.
+  apply first_diff_chunk_fuel; lia.
+Qed.
+
+Lemma hd_chunks (K : nat) (c : bytes) : hd [] (chunks K c) = firstn K c.
+Proof.
+  unfold chunks. destruct c as [|x c]; [destruct K; reflexivity|]. reflexivity.
+Qed.
+
+(* ================================================================== *)
+(* 6. comparison beyond one chunk                                      *)
+Section Compare2.
+Variable K F : N.
+Variable content : bytes -> bytes.
+
+(* outside the class of the finding nodeStore.CompareAdaptive:first-chunk-only:
+   two trees are compared leaf by leaf only when they have the same height
+   (>= 1); otherwise only the first leaf of each side is looked at, which is
+   enough exactly when the other side cannot extend past it *)
+Definition cmp_safe (cl cr : bytes) (l r : aval) : bool :=
+  match l, r with
+  | AOut _ _, AOut _ _ =>
+    ((len cl <=? K) && (len cr <=? K))
+    || ((top_level K F (len cl) =? top_level K F (len cr)) && (0 <? top_level K F (len cl)))
+  | AInline _, AOut _ _ => (len cl <? K) || (len cr <=? K)
+  | AOut _ _, AInline _ => (len cr <? K) || (len cl <=? K)
+  | _, _ => true
+  end.
+
+Lemma firstn_small (c : bytes) : len c <= K -> firstn (N.to_nat K) c = c.
+Proof. intros H. apply firstn_all2. unfold len in H. lia. Qed.
+
+Lemma compare_first_chunk (a c : bytes) :
+  (len a <? K) || (len c <=? K) = true -> bytes_compare a (firstn (N.to_nat K) c) = bytes_compare a c.
+Proof.
+  intros H. apply orb_true_iff in H as [H | H].
+  - apply N.ltb_lt in H. destruct (N.le_gt_cases (len c) K) as [L | L]; [rewrite firstn_small by exact L; reflexivity|].
+    rewrite <- (firstn_skipn (N.to_nat K) c) at 2. symmetry. apply bytes_compare_short.
+    rewrite firstn_length. unfold len in *. lia.
+  - apply N.leb_le in H. rewrite firstn_small by exact H. reflexivity.
+Qed.
+
+Theorem compare_adaptive_correct (cl cr : bytes) (l r : aval) :
+  0 < K -> repr_of content cl l -> repr_of content cr r -> cmp_safe cl cr l r = true ->
+  compare_adaptive K F content l r = bytes_compare cl cr.
+Proof.
+  intros HK Rl Rr S.
+  destruct Rl as [-> | [al [-> Cl]]]; destruct Rr as [-> | [ar [-> Cr]]]; cbn [cmp_safe] in S.
+  - reflexivity.
+  - cbn [compare_adaptive side_of first_chunk]. rewrite Cr, hd_chunks. apply compare_first_chunk. exact S.
+  - cbn [compare_adaptive side_of first_chunk]. rewrite Cl, hd_chunks.
+    rewrite (bytes_compare_antisym cr (firstn _ cl)), (bytes_compare_antisym cr cl), compare_first_chunk by exact S. reflexivity.
+  - cbn [compare_adaptive].
+    destruct (beq_bytes al ar) eqn:E.
+    + apply beq_bytes_spec in E. subst ar. rewrite Cl in Cr. subst cr. symmetry. apply bytes_compare_eq. reflexivity.
+    + cbn [side_of]. rewrite Cl, Cr.
+      destruct ((top_level K F (len cl) =? top_level K F (len cr)) && (0 <? top_level K F (len cl))) eqn:H.
+      * apply first_diff_chunks. lia.
+      * rewrite orb_false_r in S. apply andb_true_iff in S as [S1 S2]. apply N.leb_le in S1, S2.
+        rewrite !hd_chunks, !firstn_small by assumption. reflexivity.
+Qed.
+
+(* the result does not depend on the representation of either side, for all
+   contents, as long as both pairs are outside the finding's class *)
+Corollary compare_adaptive_repr_indep_general (cl cr : bytes) (l l' r r' : aval) :
+  0 < K -> repr_of content cl l -> repr_of content cl l' -> repr_of content cr r -> repr_of content cr r' ->
+  cmp_safe cl cr l r = true -> cmp_safe cl cr l' r' = true ->
+  compare_adaptive K F content l r = compare_adaptive K F content l' r'.
+Proof. intros. rewrite !(compare_adaptive_correct cl cr) by assumption. reflexivity. Qed.
+
+(* two out-of-band values whose trees have the same height >= 1 *)
+Corollary compare_adaptive_same_height (cl cr al ar : bytes) :
+  0 < K -> content al = cl -> content ar = cr ->
+  top_level K F (len cl) = top_level K F (len cr) -> 0 < top_level K F (len cl) ->
+  compare_adaptive K F content (AOut (len cl) al) (AOut (len cr) ar) = bytes_compare cl cr.
+Proof.
+  intros HK Cl Cr H1 H2. apply compare_adaptive_correct; [exact HK | right; eauto | right; eauto |].
+  cbn [cmp_safe]. apply N.eqb_eq in H1. apply N.ltb_lt in H2. rewrite H1, H2. apply orb_true_r.
+Qed.
+End Compare2.
+
+
+(* ================================================================== *)
+(* 7. oracle_on_model                                                  *)
+Definition out_form (x addr : bytes) : aval := if len x =? 0 then AInline x else AOut (len x) addr.
+
+(* store level: lengths fit the 64-bit header; within the case the store is a
+   bijection between the two contents and their addresses *)
+Definition api_wf (a : api_in) : bool :=
+  let x := expand (a_x a) in
+  let y := expand (a_y a) in
+  (len x <? 2 ^ 64) && (len y <? 2 ^ 64)
+  && Bool.eqb (beq_bytes (a_addr_x a) (a_addr_y a)) (beq_bytes x y).
+
+(* excluded class = the known finding nodeStore.CompareAdaptive:first-chunk-only:
+   every comparison the case makes is between sides for which looking at first
+   leaves / aligned leaves is enough (cmp_safe) *)
+Definition api_safe (a : api_in) : bool :=
+  let x := expand (a_x a) in
+  let y := expand (a_y a) in
+  let ox := out_form x (a_addr_x a) in
+  let oy := out_form y (a_addr_y a) in
+  let ix := inline_ok (a_target a) x in
+  let iy := inline_ok (a_target a) y in
+  let safe := cmp_safe chunk_len fanout x y in
+  (negb ix || safe (AInline x) oy) && (negb iy || safe ox (AInline y)) && safe ox oy.
+
+Lemma chunk_len_pos : 0 < chunk_len.
+Proof. reflexivity. Qed.
+
+Lemma repr_out_x a : repr_of (store2 a) (expand (a_x a)) (out_form (expand (a_x a)) (a_addr_x a)).
+Proof.
+  unfold out_form. destruct (len (expand (a_x a)) =? 0); [left; reflexivity|].
+  right. exists (a_addr_x a). split; [reflexivity|]. unfold store2. rewrite beq_bytes_refl. reflexivity.
+Qed.
+
+Lemma repr_out_y a : api_wf a = true -> repr_of (store2 a) (expand (a_y a)) (out_form (expand (a_y a)) (a_addr_y a)).
+Proof.
+  intros W. unfold out_form. destruct (len (expand (a_y a)) =? 0); [left; reflexivity|].
+  right. exists (a_addr_y a). split; [reflexivity|]. unfold store2.
+  destruct (beq_bytes (a_addr_y a) (a_addr_x a)) eqn:E; [|reflexivity].
+  unfold api_wf in W. apply andb_true_iff in W as [_ W]. apply eqb_prop in W.
+  apply beq_bytes_spec in E. rewrite E, beq_bytes_refl in W. symmetry in W. apply beq_bytes_spec in W. exact W.
+Qed.
+
+Lemma code_eqb_refl c : (comparison_code c =? comparison_code c)%Z = true.
+Proof. apply Z.eqb_refl. Qed.
+
+Theorem api_oracle_on_model (a : api_in) :
+  api_wf a = true -> api_safe a = true -> api_oracle a (api_model a) = true.
+Proof.
+  intros W S. pose proof (repr_out_x a) as Rx. pose proof (repr_out_y a W) as Ry.
+  unfold api_safe in S. apply andb_true_iff in S as [S S3]. apply andb_true_iff in S as [S1 S2].
+  unfold api_oracle, api_model. cbn [ao_read_ok ao_out ao_cmp].
+  fold (out_form (expand (a_x a)) (a_addr_x a)). fold (out_form (expand (a_y a)) (a_addr_y a)).
+  set (x := expand (a_x a)) in *. set (y := expand (a_y a)) in *.
+  set (ox := out_form x (a_addr_x a)) in *. set (oy := out_form y (a_addr_y a)) in *.
+  assert (Rix : repr_of (store2 a) x (AInline x)) by (left; reflexivity).
+  assert (Riy : repr_of (store2 a) y (AInline y)) by (left; reflexivity).
+  apply andb_true_iff; split; [apply andb_true_iff; split; [reflexivity|]|].
+  - (* the out-of-band form decodes to (length, address) *)
+    unfold ox, out_form. destruct (N.eqb_spec (len x) 0) as [E | E].
+    + cbn [ad_enc ad_dec]. rewrite E. reflexivity.
+    + rewrite ad_roundtrip.
+      * rewrite N.eqb_refl, beq_bytes_refl. reflexivity.
+      * cbn [wf_aval]. unfold api_wf in W. apply andb_true_iff in W as [W _]. apply andb_true_iff in W as [W _].
+        apply N.ltb_lt in W. fold x in W. lia.
+  - cbn [forallb]. rewrite andb_true_r.
+    repeat (apply andb_true_iff; split).
+    + destruct (inline_ok (a_target a) x && inline_ok (a_target a) y); [|reflexivity].
+      cbn [compare_adaptive]. apply code_eqb_refl.
+    + destruct (inline_ok (a_target a) x); [|reflexivity]. cbn [negb orb] in S1.
+      rewrite (compare_adaptive_correct chunk_len fanout (store2 a) x y) by (try assumption; apply chunk_len_pos).
+      apply code_eqb_refl.
+    + destruct (inline_ok (a_target a) y); [|reflexivity]. cbn [negb orb] in S2.
+      rewrite (compare_adaptive_correct chunk_len fanout (store2 a) x y) by (try assumption; apply chunk_len_pos).
+      apply code_eqb_refl.
+    + rewrite (compare_adaptive_correct chunk_len fanout (store2 a) x y) by (try assumption; apply chunk_len_pos).
+      apply code_eqb_refl.
+Qed.
+
+(* --- SQL level: the model observation is the declarative spec; the oracle accepts it --- *)
+Lemma row_le_total x y : row_le x y = false -> row_le y x = true.
+Proof.
+  unfold row_le. rewrite (bytes_compare_antisym (fst x) (fst y)).
+  destruct (bytes_compare (fst x) (fst y)); cbn [CompOpp]; intros H; try discriminate H; try reflexivity.
+  apply N.leb_gt in H. apply N.leb_le. lia.
+Qed.
+
+Lemma sorted_cons x l : sorted_rows (x :: l) = match l with [] => true | y :: _ => row_le x y && sorted_rows l end.
+Proof. reflexivity. Qed.
+
+Lemma insert_row_sorted x l : sorted_rows l = true -> sorted_rows (insert_row x l) = true.
+Proof.
+  induction l as [|y l IH]; intros H; [reflexivity|].
+  cbn [insert_row]. destruct (row_le x y) eqn:E.
+  - rewrite sorted_cons, E, H. reflexivity.
+  - apply row_le_total in E. rewrite sorted_cons in H.
+    destruct l as [|z l].
+    + cbn [insert_row]. rewrite sorted_cons, E. reflexivity.
+    + apply andb_true_iff in H as [H1 H2]. specialize (IH H2).
+      cbn [insert_row] in IH |- *. destruct (row_le x z) eqn:E2.
+      * rewrite sorted_cons, E. cbn [andb]. exact IH.
+      * rewrite sorted_cons, H1. cbn [andb]. exact IH.
+Qed.
+
+Lemma sort_rows_sorted l : sorted_rows (sort_rows l) = true.
+Proof. unfold sort_rows. induction l as [|x l IH]; [reflexivity|]. cbn [fold_right]. apply insert_row_sorted. exact IH. Qed.
+
+Lemma insert_row_forall (P : bytes * N -> Prop) x l : P x -> Forall P l -> Forall P (insert_row x l).
+Proof.
+  intros Hx H. induction H as [|y l Hy Hl IH]; cbn [insert_row]; [constructor; [exact Hx | constructor]|].
+  destruct (row_le x y); constructor; try assumption. constructor; assumption.
+Qed.
+
+Lemma sort_rows_forall (P : bytes * N -> Prop) l : Forall P l -> Forall P (sort_rows l).
+Proof.
+  unfold sort_rows. induction 1 as [|x l Hx Hl IH]; cbn [fold_right]; [constructor|].
+  apply insert_row_forall; assumption.
+Qed.
+
+Lemma insert_row_length x l : length (insert_row x l) = S (length l).
+Proof. induction l as [|y l IH]; [reflexivity|]. cbn [insert_row]. destruct (row_le x y); cbn [length]; [reflexivity | rewrite IH; reflexivity]. Qed.
+
+Lemma sort_rows_length l : length (sort_rows l) = length l.
+Proof. unfold sort_rows. induction l as [|x l IH]; [reflexivity|]. cbn [fold_right]. rewrite insert_row_length, IH. reflexivity. Qed.
+
+Lemma combine_ids_good (vs : list bytes) : forall k,
+  Forall (fun p : bytes * N => exists j, snd p = N.of_nat (k + j) /\ nth j vs [] = fst p /\ (j < length vs)%nat)
+         (combine vs (map N.of_nat (seq k (length vs)))).
+Proof.
+  induction vs as [|v vs IH]; intros k; [constructor|].
+  cbn [length seq map combine]. constructor.
+  - exists 0%nat. cbn [fst snd nth length]. repeat split; [f_equal; lia | lia].
+  - specialize (IH (S k)). eapply Forall_impl; [|exact IH].
+    intros p [j (H1 & H2 & H3)]. exists (S j). cbn [nth length]. repeat split; [rewrite H1; f_equal; lia | exact H2 | lia].
+Qed.
+
+Lemma list_eqb_N_refl l : list_eqb N.eqb l l = true.
+Proof. induction l as [|x l IH]; [reflexivity|]. cbn [list_eqb]. rewrite N.eqb_refl, IH. reflexivity. Qed.
+Lemma list_eqb_bool_refl l : list_eqb Bool.eqb l l = true.
+Proof. induction l as [|x l IH]; [reflexivity|]. cbn [list_eqb]. rewrite eqb_reflx, IH. reflexivity. Qed.
+
+Theorem sql_oracle_on_model (s : sql_in) : sql_oracle s (sql_model s) = true.
+Proof.
+  unfold sql_oracle, sql_model.
+  cbn [so_read_in so_read_out so_read_sel so_read_upd so_order_in so_order_out so_order_sel so_order_upd so_distinct_sel so_distinct_upd
+       so_json_full so_distinct_in so_distinct_out so_groups_in so_groups_out so_join so_unique so_hash_same].
+  set (vs := map expand (s_vals s)).
+  set (L := sort_rows (combine vs (map N.of_nat (seq 1 (length vs))))).
+  assert (HL : map (fun id => (nth (N.to_nat id - 1) vs [], id)) (map snd L) = L).
+  { rewrite map_map. rewrite <- (map_id L) at 2. apply map_ext_in. intros p Hp.
+    assert (G : Forall (fun p : bytes * N => exists j, snd p = N.of_nat (1 + j) /\ nth j vs [] = fst p /\ (j < length vs)%nat) L)
+      by (apply sort_rows_forall, combine_ids_good).
+    rewrite Forall_forall in G. destruct (G p Hp) as [j (H1 & H2 & _)].
+    rewrite H1. replace (N.to_nat (N.of_nat (1 + j)) - 1)%nat with j by lia. rewrite H2, <- H1. destruct p; reflexivity. }
+  rewrite !N.eqb_refl, list_eqb_N_refl, list_eqb_bool_refl, HL. cbn [andb].
+  unfold L at 1. rewrite sort_rows_sorted. cbn [andb].
+  rewrite map_length. unfold L. rewrite sort_rows_length, combine_length, map_length, seq_length, Nat.min_id.
+  rewrite N.eqb_refl. reflexivity.
+Qed.
+
+(* the property holds of the model on every well-formed input outside the
+   class of the known comparison finding *)
+Definition wf_input (i : input) : bool :=
+  match i with IApi a => api_wf a && api_safe a | ISql _ => true end.
+
+Theorem oracle_on_model (i : input) : wf_input i = true -> oracle i (model_obs i) = true.
+Proof.
+  destruct i as [a | s]; cbn [wf_input oracle model_obs]; intros H.
+  - apply andb_true_iff in H as [W S]. apply api_oracle_on_model; assumption.
+  - apply sql_oracle_on_model.
+Qed.
+
+Example wf_input_example :
+  wf_input (IApi {| a_target := 2048; a_x := {| cs_n := 30%nat; cs_pat := [97]; cs_muts := [] |};
+                    a_y := {| cs_n := 31%nat; cs_pat := [97]; cs_muts := [] |}; a_addr_x := [1]; a_addr_y := [2] |}) = true.
+Proof. vm_compute. reflexivity. Qed.
+
+
+(* ================================================================== *)
+(* 8. the blob builder's level count gives a single root               *)
+Lemma chunk_fuel_count (K : nat) : (0 < K)%nat -> forall f b,
+  (length b <= f)%nat -> b <> [] ->
+  (1 <= length (chunk_fuel f K b) /\ length (chunk_fuel f K b) * K <= length b + K - 1)%nat.
+Proof.
+  intros HK. induction f as [|f IH]; intros b L Hne.
+  - destruct b; [congruence | cbn in L; lia].
+  - cbn [chunk_fuel]. destruct b as [|x b]; [congruence|]. cbn [length].
+    set (r := skipn K (x :: b)).
+    assert (Lr : length r = (length (x :: b) - K)%nat) by (unfold r; apply skipn_length).
+    cbn [length] in Lr, L.
+    destruct r as [|y r'] eqn:R.
+    + destruct f; cbn [chunk_fuel length]; cbn [length] in Lr; lia.
+    + destruct (IH (y :: r')) as [I1 I2]; [cbn [length] in *; lia | discriminate|].
+      rewrite Lr in I2. split; [lia|]. nia.
+Qed.
+
+Lemma group_fuel_count (F : nat) : (0 < F)%nat -> forall f ts,
+  (length ts <= f)%nat -> ts <> [] ->
+  (1 <= length (group_fuel f F ts) /\ length (group_fuel f F ts) * F <= length ts + F - 1)%nat.
+Proof.
+  intros HF. induction f as [|f IH]; intros ts L Hne.
+  - destruct ts; [congruence | cbn in L; lia].
+  - cbn [group_fuel]. destruct ts as [|x ts]; [congruence|]. cbn [length].
+    set (r := skipn F (x :: ts)).
+    assert (Lr : length r = (length (x :: ts) - F)%nat) by (unfold r; apply skipn_length).
+    cbn [length] in Lr, L.
+    destruct r as [|y r'] eqn:R.
+    + destruct f; cbn [group_fuel length]; cbn [length] in Lr; lia.
+    + destruct (IH (y :: r')) as [I1 I2]; [cbn [length] in *; lia | discriminate|].
+      rewrite Lr in I2. split; [lia|]. nia.
+Qed.
+
+Lemma levels_count (F : nat) : (0 < F)%nat -> forall h ts, ts <> [] ->
+  (1 <= length (levels h F ts) /\ length (levels h F ts) * F ^ h <= length ts + F ^ h - 1)%nat.
+Proof.
+  intros HF. induction h as [|h IH]; intros ts Hne.
+  - cbn [levels Nat.pow]. destruct ts; [congruence | cbn [length]; lia].
+  - cbn [levels].
+    destruct (group_fuel_count F HF (length ts) ts (le_n _) Hne) as [G1 G2].
+    fold (group F ts) in G1, G2.
+    assert (Gne : group F ts <> []) by (destruct (group F ts); [cbn in G1; lia | discriminate]).
+    destruct (IH (group F ts) Gne) as [I1 I2]. split; [exact I1|].
+    assert (P : (0 < F ^ h)%nat) by (apply Nat.neq_0_lt_0, Nat.pow_nonzero; lia).
+    cbn [Nat.pow]. nia.
+Qed.
+
+Lemma top_level_fuel_bound (F : N) : 1 < F -> forall fuel d,
+  d < F ^ N.of_nat fuel -> d < F ^ top_level_fuel fuel F d.
+Proof.
+  intros HF. induction fuel as [|fuel IH]; intros d Hd.
+  - cbn [top_level_fuel]. exact Hd.
+  - cbn [top_level_fuel]. destruct (N.ltb_spec 0 d) as [Hp | Hz]; [|rewrite N.pow_0_r; lia].
+    rewrite Nat2N.inj_succ, N.pow_succ_r' in Hd.
+    assert (Hq : d / F < F ^ N.of_nat fuel) by (apply N.div_lt_upper_bound; lia).
+    specialize (IH _ Hq). rewrite N.add_1_l, N.pow_succ_r'.
+    pose proof (N.div_mod d F ltac:(lia)) as E. pose proof (N.mod_lt d F ltac:(lia)) as R.
+    set (q := d / F) in *. set (X := F ^ top_level_fuel fuel F q) in *. clearbody X. nia.
+Qed.
+
+Theorem blob_forest_single_root (K F : N) (b : bytes) :
+  0 < K -> 1 < F -> b <> [] -> len b < 2 ^ 64 -> length (blob_forest K F b) = 1%nat.
+Proof.
+  intros HK HF Hne H64. unfold blob_forest.
+  assert (HKn : (0 < N.to_nat K)%nat) by lia. assert (HFn : (0 < N.to_nat F)%nat) by lia.
+  destruct (chunk_fuel_count (N.to_nat K) HKn (length b) b (le_n _) Hne) as [C1 C2].
+  fold (chunks (N.to_nat K) b) in C1, C2.
+  set (lv := map TLeaf (chunks (N.to_nat K) b)).
+  assert (Ll : length lv = length (chunks (N.to_nat K) b)) by (unfold lv; apply map_length).
+  assert (Lne : lv <> []) by (destruct lv; [cbn in Ll; lia | discriminate]).
+  set (h := N.to_nat (top_level K F (len b))).
+  destruct (levels_count (N.to_nat F) HFn h lv Lne) as [V1 V2].
+  enough (HL : (length lv <= N.to_nat F ^ h)%nat) by nia.
+  rewrite Ll. unfold h, top_level.
+  destruct (N.leb_spec (len b) K) as [Hs | Hb].
+  - cbn [N.to_nat Nat.pow]. unfold len in Hs. nia.
+  - set (d := len b / K).
+    assert (Hd : d < F ^ top_level_fuel 64 F d).
+    { apply top_level_fuel_bound; [exact HF|]. change (N.of_nat 64) with 64.
+      assert (d <= len b) by (apply N.div_le_upper_bound; nia).
+      assert (2 ^ 64 <= F ^ 64) by (apply N.pow_le_mono_l; lia). lia. }
+    (* number of leaves <= d + 1 <= F^h *)
+    assert (Hc : N.of_nat (length (chunks (N.to_nat K) b)) <= d + 1).
+    { pose proof (N.div_mod (len b) K ltac:(lia)) as E. pose proof (N.mod_lt (len b) K ltac:(lia)) as R.
+      fold d in E. unfold len in *. set (L := length (chunks (N.to_nat K) b)) in *. clearbody L. nia. }
+    set (t := top_level_fuel 64 F d) in *.
+    assert (Hp : N.of_nat (N.to_nat F ^ N.to_nat t) = F ^ t).
+    { rewrite Nat2N.inj_pow, !N2Nat.id. reflexivity. }
+    lia.
 Qed.
